@@ -20,7 +20,41 @@ KINDS = ('contract', 'transport', 'storage', 'multi', 'orderbook', 'orderbook', 
          'periodic', 'periodic', 'storage_blocks', 'storage_mip')
 
 
+def run_slp_case(rng, tier, case):
+    """'every optimised portfolio': a two-stage stochastic problem (make_slp) optimised and read back through extract_output - the reported value equals
+    the sum of the cash-flow table (assets with several mapping rows per variable included)."""
+    import eaopack.io as eio
+    import eaopack.stoch_lin_prog as SLP
+    from ..spec import build
+    spec = gen.strip_private(gen.gen_lp_portfolio(rng, grid_kw={'steps': (6, 18)}, types=('contract', 'transport', 'transport', 'storage', 'multi'), n_assets=(1, 4), n_nodes=(2, 3)))
+    case.feature('slp')
+    for t in gen.asset_types(spec):
+        case.feature('type:' + t)
+    case.key = env.spec_key(spec); case.sample = dict(gen.abbreviate(spec), slp=True); case.spec = spec
+    try:
+        with env.quiet():
+            b = build(spec); P, tg = b.portfolio, b.timegrid
+            k = int(rng.integers(1, tg.T))
+            samples = [{q: np.asarray(v, float) for q, v in gen.gen_prices(rng, tg.T, sorted(spec['prices'])).items()} for _ in range(int(rng.integers(1, 4)))]
+            op = SLP.make_slp(P.setup_optim_problem(b.prices, tg), P, tg, tg.timepoints[k], samples)
+            res = op.optimize()
+    except Exception as e:
+        case.reject('slp set-up / optimise: %s %s' % (type(e).__name__, str(e)[:120])); return
+    if isinstance(res, str):
+        case.inconc('slp not solved: ' + res); return
+    try:
+        with env.quiet():
+            out = eio.extract_output(P, op, res, b.prices)
+    except Exception as e:
+        case.check('value.slp_extraction_works', False, error='%s: %s' % (type(e).__name__, str(e)[:160])); return
+    dcf = out['DCF']; v = float(res.value); tot = float(dcf.values.sum())
+    case.check('value.total_is_sum_of_dcf', abs(tot - v) <= 1e-6 * (1. + abs(v) + float(np.abs(dcf.values).sum())), value=v, sum_dcf=tot, slp=True, boundary=k, samples=len(samples))
+    case.nontrivial = abs(v) > 1e-6
+
+
 def run_case(rng, tier, case):
+    if rng.random() < 0.06:
+        return run_slp_case(rng, tier, case)
     spec = gen.gen_mixed_portfolio(rng, kinds=KINDS, grid_kw={'steps': (4, 26)}, n_assets=(2, 5), n_nodes=(1, 3))
     split = None
     if rng.random() < 0.35 and not spec['grid']['freq'].endswith('d'):
